@@ -172,6 +172,7 @@ def run(case):
     bfm = env.bec2file
     env.install_rng(prov.SimRng(case["rng"]))
     cfgs = [G.config_dict(c) for c in case["cfgs"]]
+    pristine = [dict(c) for c in cfgs]
     skey = bytes.fromhex(case["skey"])
     cust = bfm.SoftwareCustKeyEncryptor(bytes.fromhex(case["aes"]))
     try:
@@ -431,6 +432,12 @@ def run(case):
                 reloaded = True
                 out.ev("reload", len(got.bf3file.components), list(got.auth_blocks))
             # --- invariants after every step ---
+            for ci_, (c_, p_) in enumerate(zip(cfgs, pristine)):
+                if c_ != p_:
+                    out.fail("C11.config-mutated", "callers-dict-changed",
+                             "operation %s changed the caller's configuration dictionary %d: %r" % (
+                                 k, ci_, sorted(set(c_.items()) ^ set(p_.items()))[:3]))
+                    cfgs[ci_] = dict(p_)
             bf3 = bec.bf3file
             ncc = sum(1 for c in bf3.components if is_cfg_comp(c))
             if ncc > 1:
